@@ -82,7 +82,7 @@ pub fn run(seed: u64, count: usize, _thorough: bool, out: &mut Out) {
                         continue;
                     }
                     let integer = matches!(tag, "label_seq_id" | "auth_seq_id" | "pdbx_formal_charge" | "pdbx_PDB_model_num");
-                    let mut bad = vec!["x", "'1.5'", "\"2\"", "1,5", "--1", "1e", "abc", "1.5.2", "0x10", "1_0", "NaN", "inf", ";3.0\n;"];
+                    let mut bad = vec!["x", "'1.5'", "\"2\"", "1,5", "--1", "1e", "abc", "1.5.2", "0x10", "1_0", "NaN", "inf", ";3.0\n;", "1.5e+", "12e-", "1e+", "2.e-", "1.5e(3)"];
                     if integer {
                         bad.extend(["1.5", "1e-1", "0.25"]);
                     }
